@@ -158,6 +158,23 @@ Example C18_replay_inhabited :
   r_out (step (run ops) (AddHandler 1 9 false)) = [(1, 9, NSync 3); (1, 9, NSync 4)].
 Proof. vm_compute. repeat split; reflexivity. Qed.
 
+(* Adding a handler is atomic with respect to events: whatever the server holds
+   after the next event of the resource has been shown to the new handler, in its
+   replay or as that event - nothing falls between replay and registration. *)
+Theorem C18_add_is_atomic : forall ops s h own r k o x,
+  sub_live (run ops) s = true -> sub_res (run ops) s = Some r ->
+  In x (fst (cache_apply k o (store (run ops) r))) ->
+  exists n, In (s, h, n) (outs_from (run ops) [AddHandler s h own; Event r k o]) /\ note_obj n = x.
+Proof. exact Atomic.add_is_atomic. Qed.
+Print Assumptions C18_add_is_atomic.
+
+Example C18_add_is_atomic_inhabited :
+  let ops := [Subscribe 0; Event 0 EAdd 3; Subscribe 0] in
+  sub_live (run ops) 1 = true /\ sub_res (run ops) 1 = Some 0 /\
+  fst (cache_apply EAdd 4 (store (run ops) 0)) = [3; 4] /\
+  outs_from (run ops) [AddHandler 1 9 false; Event 0 EAdd 4] = [(1, 9, NSync 3); (1, 9, NAdd 4)].
+Proof. vm_compute. repeat split; reflexivity. Qed.
+
 (* ------------------------------------------------------------------ *)
 (* 4. delivery                                                         *)
 (* ------------------------------------------------------------------ *)
